@@ -7,7 +7,7 @@ from . import score_common as sc
 from .core import Prop, bits2f, exc_class
 
 CONTAINERS = ["list_int", "list_float", "tuple_int", "np_int64", "np_int32", "np_float64", "pl_int", "pl_float", "list_mixed",
-              "np_uint8", "np_uint32", "pl_uint32", "np_int8", "list_mixed_int_first"]
+              "np_uint8", "np_uint32", "pl_uint32", "np_int8", "list_mixed_int_first", "np_float32", "pl_float32"]
 ENTRY = ["score", "score", "ident", "decompose", "bias", "marginal", "iso", "isomodel"]
 
 
@@ -34,8 +34,10 @@ def conv(vals, container):
         return [int(v) if i % 2 else float(v) for i, v in enumerate(vals)]
     if container == "list_mixed_int_first":
         return [float(v) if i % 2 else int(v) for i, v in enumerate(vals)]  # a type inferred from the first element is wrong
-    if container in ("np_uint8", "np_uint32", "np_int8"):
+    if container in ("np_uint8", "np_uint32", "np_int8", "np_float32"):
         return np.array(vals, dtype=container[3:])
+    if container == "pl_float32":
+        return pl.Series([float(v) for v in vals], dtype=pl.Float32)
     if container == "pl_uint32":
         return pl.Series([int(v) for v in vals], dtype=pl.UInt32)
     raise KeyError(container)
@@ -158,14 +160,14 @@ class C17(Prop):
                 # each column starts with a whole number written as int and continues with non-integer floats
                 c["z"] = [z[0]] + [v + rng.choice([0.5, 0.25, 0.75]) for v in z[1:]]
                 c["z2"] = [z[0] + 1] + [v + rng.choice([0.5, 0.25, 1.5]) for v in z[1:]]
-            if big and c["container"] in ("np_int32", "np_uint8", "np_int8"):
+            if big and c["container"] in ("np_int32", "np_uint8", "np_int8", "np_float32", "pl_float32"):
                 c["container"] = "np_int64"
             if max(c["y"] + c["z"] + (c["w"] or [0])) > 100 and not big:
                 pass
             if c["container"] == "np_int8" or c.get("zcontainer") == "np_int8" or c["container"] == "np_uint8" or c.get("zcontainer") == "np_uint8":
                 c["y"] = [min(v, 100) for v in c["y"]]
                 c["z"] = [min(v, 100) for v in c["z"]]
-            if big and c.get("zcontainer") in ("np_int32", "np_uint8", "np_int8"):
+            if big and c.get("zcontainer") in ("np_int32", "np_uint8", "np_int8", "np_float32", "pl_float32"):
                 c["zcontainer"] = "np_int64"
             if ep in ("bias", "marginal") and c["container"] in ("np_uint8", "np_int8", "np_uint32", "pl_uint32") and c["w"] is not None and "rows2d" not in c:
                 # narrow observations, predictions AND weights: products weight * value beyond the 8-bit range
@@ -379,7 +381,8 @@ class C17(Prop):
             if isinstance(a, float) and isinstance(b, float):
                 if math.isnan(a) and math.isnan(b):
                     continue
-                if not (abs(a - b) <= 1e-9 * max(1.0, abs(a), abs(b)) or a == b):
+                single = "float32" in case["container"] or "float32" in case.get("zcontainer", "")
+                if not (abs(a - b) <= (1e-5 if single else 1e-9) * max(1.0, abs(a), abs(b)) or a == b):  # "up to float rounding" (of the dtype)
                     return f"{case['stream']}: {case['container']} gives {b!r} where float64 arrays give {a!r}"
             elif a != b:
                 return f"{case['stream']}: {case['container']} gives {b!r} where float64 arrays give {a!r}"
